@@ -3,7 +3,7 @@ Theorems on F3.Validator (executable model of gpbft/validator.go + internal/cach
 F3.Spec.ValidMsg.validMsg; h_validate drives the real gpbft.Participant validator (warm participant with tiny
 caches vs fresh participants) on really signed messages and their corruptions / recombinations."""
 
-NONTRIVIAL = r"^(v|t) "
+NONTRIVIAL = r"^(v|t|cv|h) "
 
 
 def search(ctx):
@@ -19,17 +19,24 @@ def search(ctx):
 
 def run(ctx):
     ctx.prove()
-    worlds = "1200" if ctx.tier == "thorough" else "60"
+    worlds = "900" if ctx.tier == "thorough" else "45"
     ctx.correspond("h_validate", "Validate", nontrivial=NONTRIVIAL,
                    env={"VERIF_VALIDATE_MODE": "c05", "VERIF_VALIDATE_WORLDS": worlds})
+    if ctx.tier == "thorough":
+        # supporting validation of the goroutine-level sub-claim: the same workload (incl. the concurrent phase that ends
+        # every world: 6 goroutines x 2 passes over a shared participant) under the race detector; a reported race makes
+        # the harness exit non-zero
+        ctx.correspond("h_validate", "Validate", nontrivial=NONTRIVIAL, tag="h_validate_race", race=True, seed=ctx.seed + 7,
+                       env={"VERIF_VALIDATE_MODE": "c05", "VERIF_VALIDATE_WORLDS": "15", "GORACE": "halt_on_error=1"})
     return ctx.finish(
         rule="h_validate (mode c05): one line = one validation request (v: ValidateMessage; t: PartiallyValidate + "
-             "completion + FullyValidate + ValidateMessage of the completed message) presented to a long-lived participant "
+             "completion + FullyValidate + ValidateMessage of the completed message; h: real CompleteMessage then ValidateMessage or "
+             "PartiallyValidateMessage as in validatePubsubMessage) presented to a long-lived participant "
              "(cache sizes 1..25000 entries x 1..10 groups, pruned by StartInstanceAt) AND to fresh participants at the same "
              "progress; the line carries the symbolic message (signature tokens resolved from the real bytes), all verdicts, "
              "the cache membership of the keys involved and the cache structure. The driver replays F3.Validator.validate / "
              "partially / fully with the model cache, compares verdicts + cache, and evaluates validMsg / relevant / "
-             "warm = fresh. distinct_nontrivial = distinct v/t lines.",
+             "warm = fresh; cv = verdicts of 6 goroutines validating one batch concurrently on the warm participant vs a fresh one (thorough tier repeats a slice of the workload under -race). distinct_nontrivial = distinct v/t/cv lines.",
         trusted_base=[
             "symbolic cryptography: a FakeBackend signature / aggregate is the token (key, signed bytes) kept in the harness "
             "table; unknown bytes are garbage; signed bytes are resolved to (network, instance, round, phase, supp, key) by the "
